@@ -28,7 +28,7 @@ import (
 )
 
 func main() {
-	Main("C07", check, func(c *Ctx) (string, []byte, error) { return tabgen.Gen(c.Repo) }, rendergen.Gen, stateGen)
+	Main("C07", check, stateGen, func(c *Ctx) (string, []byte, error) { return tabgen.Gen(c.Repo) }, rendergen.Gen)
 }
 
 const imp = "From Sdfx Require Import Render.C07Corr.\nOpen Scope float_scope."
